@@ -91,10 +91,27 @@ class Wrapc(util.WrapperMixin):
         fmt_library = newlibrary.fmtdict
         # reserved the 0 slot of capsule_order
         self.add_capsule_code("--none--", None, ["// Nothing to delete"])
+        self.struct_header = {}
+        self.find_struct_headers(newlibrary)
         self.wrap_namespace(newlibrary.wrap_namespace, True)
 
         self.gather_helper_code(self.shared_helper)
         self.write_header_utility()
+
+    def find_struct_headers(self, node):
+        """Record the generated header which defines the C copy of each struct.
+        wrap_struct writes it into the header of the enclosing
+        library or namespace.
+
+        Args:
+            node - ast.LibraryNode, ast.NamespaceNode
+        """
+        for cls in node.classes:
+            if cls.wrap_as == "struct":
+                self.struct_header[cls.typemap.name] = \
+                    node.fmtdict.C_header_filename
+        for ns in node.namespaces:
+            self.find_struct_headers(ns)
 
     def wrap_namespace(self, node, top=False):
         """Wrap a library or namespace.
@@ -372,6 +389,14 @@ class Wrapc(util.WrapperMixin):
         )
         if cls and cls.cpp_if:
             output.append("#" + node.cpp_if)
+
+        if self.language == "cxx":
+            # A prototype which uses a struct needs the header
+            # which defines the C copy of the struct.
+            for ntypemap in self.header_typedef_nodes.values():
+                hdr = self.struct_header.get(ntypemap.name)
+                if hdr and hdr != fname:
+                    self.c_helper_include[hdr] = True
 
         # headers required by typedefs and helpers
         headers = self.header_iface
